@@ -337,8 +337,9 @@ theorem TInvD_simulate (pr : Predictor) (sy sy' sy2 : SyncLayer) (st : List Conn
       (∀ p, p < sy.queues.length → Skip (rget st p) c → rget sy2.advanceFrame.queues p = rget sy.queues p) ∧
       (∀ p, p < sy.queues.length → ¬ Skip (rget st p) c →
         Asked (rget sy2.advanceFrame.queues p) ((c : Int) + 1) ∧
-        (rget sy2.advanceFrame.queues p).firstIncorrectFrame = NULL_FRAME) := by
-  obtain ⟨c, gh', hc0, hl, hil, _, _, _, _, hcur', hok, hsp, hgo, hT, hinv, hsame, hask⟩ :=
+        (rget sy2.advanceFrame.queues p).firstIncorrectFrame = NULL_FRAME) ∧
+      sy'.lastSavedFrame = sy.lastSavedFrame ∧ sy'.currentFrame = sy.currentFrame := by
+  obtain ⟨c, gh', hc0, hl, hil, _, hls, _, _, hcur', hok, hsp, hgo, hT, hinv, hsame, hask⟩ :=
     SyncInvD_simulate pr sy sy' st gh inputs h.sync hs
   have hmidexec : ∀ (t : TLState), execReqs t mid = t := by
     intro t
@@ -358,7 +359,7 @@ theorem TInvD_simulate (pr : Predictor) (sy sy' sy2 : SyncLayer) (st : List Conn
   have hcn : (execReqs t0 reqs).cur.toNat = c := by rw [h.exec, hc0]; simp
   refine ⟨c, gh', hc0, hok, hsp, hgo, ⟨SyncInvD_congr hinv hq2 hc2, ?_, ?_, ?_⟩,
     by rw [hc2]; show sy'.currentFrame + 1 = _; rw [hcur'], by rw [hq2]; exact hl, hil,
-    by rw [hq2]; exact hsame, by rw [hq2]; exact hask⟩
+    by rw [hq2]; exact hsame, by rw [hq2]; exact hask, hls, hcur'⟩
   · rw [hexec, hc2]
     show (execReqs t0 reqs).cur + 1 = sy'.currentFrame + 1
     rw [h.exec, hcur']
@@ -399,14 +400,15 @@ theorem resim_loopD (s : P2P) (mc : Frame) (t0 : TLState) : ∀ (n i : Nat) (sy 
       sy'.currentFrame = sy.currentFrame + n ∧ sy'.queues.length = sy.queues.length ∧
       (∀ p, p < sy'.queues.length → (rget sy'.queues p).firstIncorrectFrame = NULL_FRAME) ∧
       (n > 0 → ∀ p, p < sy'.queues.length → (rget s.localConnectStatus p).disconnected = false →
-        Asked (rget sy'.queues p) sy'.currentFrame) := by
+        Asked (rget sy'.queues p) sy'.currentFrame) ∧
+      (sy'.lastSavedFrame = sy.lastSavedFrame ∨ sy.currentFrame ≤ sy'.lastSavedFrame) := by
   intro n
   induction n with
   | zero =>
     intro i sy reqs sy' reqs' gh h hcl hl
     simp only [P2P.adjustGamestate.loop] at hl
     cases hl
-    exact ⟨gh, h, rfl, rfl, by simp, rfl, hcl, fun h0 => absurd h0 (by omega)⟩
+    exact ⟨gh, h, rfl, rfl, by simp, rfl, hcl, fun h0 => absurd h0 (by omega), Or.inl rfl⟩
   | succ k ih =>
     intro i sy reqs sy' reqs' gh h hcl hl
     simp only [P2P.adjustGamestate.loop] at hl
@@ -417,26 +419,30 @@ theorem resim_loopD (s : P2P) (mc : Frame) (t0 : TLState) : ∀ (n i : Nat) (sy 
     obtain ⟨sy2, reqs2⟩ := r2
     simp only at hl
     have hmid : ∃ mid : List Request, reqs2 = reqs ++ mid ∧ (∀ r ∈ mid, ∃ f, r = .save f) ∧
-        sy2.queues = sy1.queues ∧ sy2.currentFrame = sy1.currentFrame := by
+        sy2.queues = sy1.queues ∧ sy2.currentFrame = sy1.currentFrame ∧
+        (sy2.lastSavedFrame = sy1.lastSavedFrame ∨ sy2.lastSavedFrame = sy1.currentFrame) := by
       have keep : (pure (sy1, reqs) : M (SyncLayer × List Request)) = .ok (sy2, reqs2) →
           ∃ mid : List Request, reqs2 = reqs ++ mid ∧ (∀ r ∈ mid, ∃ f, r = .save f) ∧
-            sy2.queues = sy1.queues ∧ sy2.currentFrame = sy1.currentFrame := by
+            sy2.queues = sy1.queues ∧ sy2.currentFrame = sy1.currentFrame ∧
+            (sy2.lastSavedFrame = sy1.lastSavedFrame ∨ sy2.lastSavedFrame = sy1.currentFrame) := by
         intro hp
         have := pure_ok hp
         simp only [Prod.mk.injEq] at this
-        exact ⟨[], by rw [← this.2]; simp, (fun r hr => by cases hr), by rw [← this.1], by rw [← this.1]⟩
+        exact ⟨[], by rw [← this.2]; simp, (fun r hr => by cases hr), by rw [← this.1], by rw [← this.1],
+          Or.inl (by rw [← this.1])⟩
       have sv : (do let (sync, r) ← sy1.saveCurrentState; pure (sync, reqs ++ [r]) : M (SyncLayer × List Request))
           = .ok (sy2, reqs2) →
           ∃ mid : List Request, reqs2 = reqs ++ mid ∧ (∀ r ∈ mid, ∃ f, r = .save f) ∧
-            sy2.queues = sy1.queues ∧ sy2.currentFrame = sy1.currentFrame := by
+            sy2.queues = sy1.queues ∧ sy2.currentFrame = sy1.currentFrame ∧
+            (sy2.lastSavedFrame = sy1.lastSavedFrame ∨ sy2.lastSavedFrame = sy1.currentFrame) := by
         intro hp
         obtain ⟨r3, hs3, hp⟩ := bind_ok hp
         obtain ⟨sy3, rq⟩ := r3
         simp only at hp
         have := pure_ok hp
         simp only [Prod.mk.injEq] at this
-        obtain ⟨hq3, hc3, hr3, _⟩ := save_fields sy1 sy3 rq hs3
-        refine ⟨[rq], by rw [← this.2], ?_, by rw [← this.1, hq3], by rw [← this.1, hc3]⟩
+        obtain ⟨hq3, hc3, hr3, hls3, _⟩ := save_fields sy1 sy3 rq hs3
+        refine ⟨[rq], by rw [← this.2], ?_, by rw [← this.1, hq3], by rw [← this.1, hc3], Or.inr (by rw [← this.1, hls3])⟩
         intro r hr
         simp only [List.mem_singleton] at hr
         exact ⟨_, by rw [hr, hr3]⟩
@@ -450,8 +456,8 @@ theorem resim_loopD (s : P2P) (mc : Frame) (t0 : TLState) : ∀ (n i : Nat) (sy 
         by_cases hi : i > 0
         · simp only [hi, if_true] at hsave; exact sv hsave
         · simp only [hi, if_false] at hsave; exact keep hsave
-    obtain ⟨mid, hr2, hmidsave, hq2, hc2⟩ := hmid
-    obtain ⟨c, gh1, hc0, _, hsp1, hgo1, hinv1, hcur1, hlen1, _, hsame1, hask1⟩ :=
+    obtain ⟨mid, hr2, hmidsave, hq2, hc2, hls2⟩ := hmid
+    obtain ⟨c, gh1, hc0, _, hsp1, hgo1, hinv1, hcur1, hlen1, _, hsame1, hask1, hls1, hcs1⟩ :=
       TInvD_simulate s.pred sy sy1 sy2 s.localConnectStatus gh t0 reqs mid inputs h hsim hmidsave hq2 hc2
     rw [hr2] at hl
     have hcl1 : ∀ p, p < sy2.advanceFrame.queues.length → (rget sy2.advanceFrame.queues p).firstIncorrectFrame = NULL_FRAME := by
@@ -460,9 +466,18 @@ theorem resim_loopD (s : P2P) (mc : Frame) (t0 : TLState) : ∀ (n i : Nat) (sy 
       by_cases hsk : Skip (rget s.localConnectStatus p) (c : Int)
       · rw [hsame1 p hp hsk]; exact hcl p hp
       · exact (hask1 p hp hsk).2
-    obtain ⟨gh', hinv', hsp', hgo', hcur', hql', hcl', hrest⟩ := ih (i + 1) sy2.advanceFrame _ sy' reqs' gh1 hinv1 hcl1 hl
+    obtain ⟨gh', hinv', hsp', hgo', hcur', hql', hcl', hrest, hlsr⟩ := ih (i + 1) sy2.advanceFrame _ sy' reqs' gh1 hinv1 hcl1 hl
+    have hls2' : sy2.advanceFrame.lastSavedFrame = sy.lastSavedFrame ∨ sy.currentFrame ≤ sy2.advanceFrame.lastSavedFrame := by
+      show sy2.lastSavedFrame = _ ∨ _ ≤ sy2.lastSavedFrame
+      rcases hls2 with hx | hx
+      · left; rw [hx, hls1]
+      · right; rw [hx, hcs1]; exact Int.le_refl _
     refine ⟨gh', hinv', by rw [hsp', hsp1], by rw [hgo', hgo1], by rw [hcur', hcur1]; push_cast; omega,
-      by rw [hql', hlen1], hcl', fun _ => ?_⟩
+      by rw [hql', hlen1], hcl', fun _ => ?_, ?_⟩
+    rotate_left
+    · rcases hlsr with hx | hx
+      · rw [hx]; exact hls2'
+      · right; rw [hcur1] at hx; omega
     by_cases hk : k > 0
     · exact hrest hk
     · have hk0 : k = 0 := by omega
@@ -561,7 +576,9 @@ theorem adjust_specD (s s' : P2P) (firstIncorrect mc : Frame) (t0 : TLState) (re
       s'.sync.queues.length = s.sync.queues.length ∧
       (∀ p, p < s'.sync.queues.length → (rget s.localConnectStatus p).disconnected = false →
         Asked (rget s'.sync.queues p) s'.sync.currentFrame) ∧
-      (∀ p, p < s'.sync.queues.length → (rget s'.sync.queues p).firstIncorrectFrame = NULL_FRAME) := by
+      (∀ p, p < s'.sync.queues.length → (rget s'.sync.queues p).firstIncorrectFrame = NULL_FRAME) ∧
+      (s'.sync.lastSavedFrame = s.sync.lastSavedFrame ∨
+        (if s.sparse = true then s.sync.lastSavedFrame else firstIncorrect) ≤ s'.sync.lastSavedFrame) := by
   unfold P2P.adjustGamestate at hadj
   simp only at hadj
   obtain ⟨hle, hadj⟩ := ensure_bind_ok hadj
@@ -616,13 +633,17 @@ theorem adjust_specD (s s' : P2P) (firstIncorrect mc : Frame) (t0 : TLState) (re
     intro p hp
     rw [hq, List.length_map] at hp
     rw [hq, rget_map_lt _ _ _ hp]; rfl
-  obtain ⟨gh', hinv', hsp', hgo', hcur', hql', hcl', hrest⟩ := resim_loopD s mc t0 _ 0 _ _ sy2 reqs2 _ hinv1 hcl1 hloop
+  obtain ⟨gh', hinv', hsp', hgo', hcur', hql', hcl', hrest, hlsr⟩ := resim_loopD s mc t0 _ 0 _ _ sy2 reqs2 _ hinv1 hcl1 hloop
   have hcnt : (s.sync.currentFrame - r).toNat > 0 := by omega
   have hask := hrest hcnt
   have hcur2 : sy2.currentFrame = s.sync.currentFrame := by simpa using hback
   subst hs'
   subst hreqs'
-  refine ⟨gh', hinv', by rw [hsp'], by rw [hgo'], rfl, hcur2, ?_, hask, hcl'⟩
+  refine ⟨gh', hinv', by rw [hsp'], by rw [hgo'], rfl, hcur2, ?_, hask, hcl', ?_⟩
+  rotate_left
+  · have e1 : sy1.resetPrediction.lastSavedFrame = s.sync.lastSavedFrame := by rw [hsy1]; rfl
+    rw [e1, hc] at hlsr
+    exact hlsr
   rw [hql', hsy1]
   show (s.sync.queues.map InputQueue.resetPrediction).length = _
   rw [List.length_map]
@@ -671,14 +692,17 @@ structure SettledD (s s' : P2P) (gh gh' : DGhost) (t0 : TLState) (reqs' : List R
   rest : s'.handles = s.handles ∧ s'.maxPrediction = s.maxPrediction ∧
     s'.pendingLocalInputs = s.pendingLocalInputs ∧ s'.numPlayers = s.numPlayers
   df : s'.disconnectFrame = NULL_FRAME
+  /-- sparse saving: the state to roll back to lies beyond every given-up player's last frame -/
+  saved : s.sparse = true → ∀ p, p < s.sync.queues.length → gh.gone p →
+    (rget s.localConnectStatus p).lastFrame < s'.sync.lastSavedFrame
 
-/-- The rollback half of `handle_rollback_and_save`, for a non-sparse session in which some players
-may have been marked disconnected since the invariant was last established (`st0`): either
-nothing needs re-simulating (then no newly marked player's last frame lies behind), or the session
-rolls back to a frame at or before the frame after every newly marked player's last one. -/
+/-- The rollback half of `handle_rollback_and_save`, for a session in which some players may have
+been marked disconnected since the invariant was last established (`st0`): either nothing needs
+re-simulating (then no newly marked player's last frame lies behind), or the session rolls back to
+a frame at or before the frame after every newly marked player's last one. -/
 theorem rollbackIfNeededD (s s' : P2P) (confirmed : Frame) (t0 : TLState) (reqs reqs' : List Request)
     (gh : DGhost) (st0 : List ConnStatus) (h : TInvD s.pred s.sync st0 gh t0 reqs)
-    (hm : Marks st0 s.localConnectStatus) (hns : s.sparse = false)
+    (hm : Marks st0 s.localConnectStatus)
     (hask : ∀ p, p < s.sync.queues.length → (rget s.localConnectStatus p).disconnected = false →
       Asked (rget s.sync.queues p) s.sync.currentFrame)
     (hpend : ∀ p, p < s.sync.queues.length → (rget st0 p).disconnected = false →
@@ -687,8 +711,9 @@ theorem rollbackIfNeededD (s s' : P2P) (confirmed : Frame) (t0 : TLState) (reqs 
       (s.disconnectFrame ≠ NULL_FRAME ∧ s.disconnectFrame ≤ (rget st0 p).lastFrame + 1))
     (hsafe : ∀ p, p < s.sync.queues.length → gh.gone p →
       (s.disconnectFrame ≠ NULL_FRAME → (rget st0 p).lastFrame < s.disconnectFrame) ∧
-      ∀ q, q < s.sync.queues.length → (rget s.sync.queues q).firstIncorrectFrame ≠ NULL_FRAME →
-        (rget st0 p).lastFrame < (rget s.sync.queues q).firstIncorrectFrame)
+      (∀ q, q < s.sync.queues.length → (rget s.sync.queues q).firstIncorrectFrame ≠ NULL_FRAME →
+        (rget st0 p).lastFrame < (rget s.sync.queues q).firstIncorrectFrame) ∧
+      (s.sparse = true → (rget st0 p).lastFrame < s.sync.lastSavedFrame))
     (hrb : s.rollbackIfNeeded confirmed reqs = .ok (s', reqs')) :
     ∃ gh', SettledD s s' gh gh' t0 reqs' := by
   unfold P2P.rollbackIfNeeded at hrb
@@ -706,28 +731,41 @@ theorem rollbackIfNeededD (s s' : P2P) (confirmed : Frame) (t0 : TLState) (reqs 
     simp only [Prod.mk.injEq] at this
     obtain ⟨hs', hr'⟩ := this
     have hne : s.sync.checkSimulationConsistency s.disconnectFrame ≠ NULL_FRAME := by simpa using hfi
-    obtain ⟨gh', hinv, hsp, hgo, hs1, hcur, hnq, hask', hclean⟩ := adjust_specD s s1 _ confirmed t0 reqs reqs1 gh st0 h hm
-      (fun p hp hne' => (hes.2 hne).2 _ (mem_of_rget _ _ hp) hne')
-      (fun p hp h0 h1 => by
-        rcases hpend p hp h0 h1 with hx | ⟨hd, hx⟩
-        · exact Or.inl hx
-        · exact Or.inr (Int.le_trans ((hes.2 hne).1 hd) hx))
-      (fun p hp hg => by
-        rw [if_neg (by rw [hns]; simp)]
+    have hgl : ∀ p, p < s.sync.queues.length → gh.gone p →
+        (rget st0 p).lastFrame < (if s.sparse = true then s.sync.lastSavedFrame
+          else s.sync.checkSimulationConsistency s.disconnectFrame) := by
+      intro p hp hg
+      by_cases hsp : s.sparse = true
+      · rw [if_pos hsp]; exact (hsafe p hp hg).2.2 hsp
+      · rw [if_neg hsp]
         refine hgt _ (hsafe p hp hg).1 ?_ hne
         intro q hq hqne
         obtain ⟨i, hi, rfl⟩ : ∃ i, i < s.sync.queues.length ∧ q = rget s.sync.queues i := by
           obtain ⟨i, hi, he⟩ := List.getElem_of_mem hq
           exact ⟨i, hi, by simp [rget, List.getD_eq_getElem?_getD, List.getElem?_eq_getElem hi, he]⟩
-        exact (hsafe p hp hg).2 i hi hqne) hadj
+        exact (hsafe p hp hg).2.1 i hi hqne
+    obtain ⟨gh', hinv, hsp, hgo, hs1, hcur, hnq, hask', hclean, hls⟩ := adjust_specD s s1 _ confirmed t0 reqs reqs1 gh st0 h hm
+      (fun p hp hne' => (hes.2 hne).2 _ (mem_of_rget _ _ hp) hne')
+      (fun p hp h0 h1 => by
+        rcases hpend p hp h0 h1 with hx | ⟨hd, hx⟩
+        · exact Or.inl hx
+        · exact Or.inr (Int.le_trans ((hes.2 hne).1 hd) hx)) hgl hadj
     subst hs'; subst hr'
-    refine ⟨gh', ⟨hinv, hsp, hgo, hcur, hnq, hask', hclean, ?_, ?_, ?_, ?_, rfl⟩⟩
+    refine ⟨gh', ⟨hinv, hsp, hgo, hcur, hnq, hask', hclean, ?_, ?_, ?_, ?_, rfl, ?_⟩⟩
     · show s1.pred = s.pred; rw [hs1]
     · show s1.localConnectStatus = s.localConnectStatus; rw [hs1]
     · show s1.sparse = s.sparse; rw [hs1]
     · show s1.handles = s.handles ∧ s1.maxPrediction = s.maxPrediction ∧
         s1.pendingLocalInputs = s.pendingLocalInputs ∧ s1.numPlayers = s.numPlayers
       rw [hs1]; exact ⟨rfl, rfl, rfl, rfl⟩
+    · intro hsp' p hp hg
+      show _ < s1.sync.lastSavedFrame
+      rw [hm.last]
+      have h1 := (hsafe p hp hg).2.2 hsp'
+      have h2 := hgl p hp hg
+      rcases hls with hx | hx
+      · rw [hx]; exact h1
+      · omega
   · simp only [hfi, Bool.false_eq_true, if_false] at hrb
     have := pure_ok hrb
     simp only [Prod.mk.injEq] at this
@@ -740,18 +778,18 @@ theorem rollbackIfNeededD (s s' : P2P) (confirmed : Frame) (t0 : TLState) (reqs 
       · exact hx
       · exact absurd hdf hd)
     exact ⟨gh, ⟨hinv, rfl, rfl, rfl, rfl, hask, fun p hp => hall _ (mem_of_rget _ _ hp), rfl, rfl, rfl,
-      ⟨rfl, rfl, rfl, rfl⟩, hdf⟩⟩
+      ⟨rfl, rfl, rfl, rfl⟩, hdf, fun hsp p hp hg => by rw [hm.last]; exact (hsafe p hp hg).2.2 hsp⟩⟩
 
 theorem SettledD_save (s s1 : P2P) (gh gh1 : DGhost) (t0 : TLState) (reqs1 : List Request) (sy : SyncLayer) (r : Request)
     (h : SettledD s s1 gh gh1 t0 reqs1) (hsv : s1.sync.saveCurrentState = .ok (sy, r)) :
     SettledD s { s1 with sync := sy } gh gh1 t0 (reqs1 ++ [r]) := by
-  obtain ⟨hq, hc, hr, _⟩ := save_fields _ _ _ hsv
+  obtain ⟨hq, hc, hr, hls, _⟩ := save_fields _ _ _ hsv
   have hR : (execReqs t0 (reqs1 ++ [r])).R = (execReqs t0 reqs1).R := by
     rw [execReqs_append, hr]; rfl
   refine ⟨⟨SyncInvD_congr h.inv.sync hq hc, ?_, ?_, ?_⟩, h.specs, h.gone, by show sy.currentFrame = _; rw [hc]; exact h.cur,
     by show sy.queues.length = _; rw [hq]; exact h.nq,
     by show ∀ p, p < sy.queues.length → _ → Asked (rget sy.queues p) sy.currentFrame; rw [hq, hc]; exact h.asked,
-    by show ∀ p, p < sy.queues.length → _; rw [hq]; exact h.clean, h.pred, h.statuses, h.sparse, h.rest, h.df⟩
+    by show ∀ p, p < sy.queues.length → _; rw [hq]; exact h.clean, h.pred, h.statuses, h.sparse, h.rest, h.df, ?_⟩
   · show (execReqs t0 (reqs1 ++ [r])).cur = sy.currentFrame
     rw [execReqs_append, hr, hc]; exact h.inv.exec
   · intro p hp f
@@ -762,11 +800,98 @@ theorem SettledD_save (s s1 : P2P) (gh gh1 : DGhost) (t0 : TLState) (reqs1 : Lis
     have hp' : p < s1.sync.queues.length := by rw [← hq]; exact hp
     rw [hR]
     exact h.inv.deadRows p hp' hd f hlf (by rw [← hc]; exact hfc)
+  · intro _ p hp hg
+    show _ < sy.lastSavedFrame
+    rw [hls]
+    have hp1 : p < s1.sync.queues.length := by rw [h.nq]; exact hp
+    exact (h.inv.sync.gone p hp1 (by rw [h.gone]; exact hg)).lt
 
-/-- **`handle_rollback_and_save` with dead players (non-sparse).** -/
+theorem SettledD_trans (s s1 s2 : P2P) (gh gh1 gh2 : DGhost) (t0 : TLState) (reqs1 reqs2 : List Request)
+    (h1 : SettledD s s1 gh gh1 t0 reqs1) (h2 : SettledD s1 s2 gh1 gh2 t0 reqs2) :
+    SettledD s s2 gh gh2 t0 reqs2 := by
+  refine ⟨by have := h2.inv; rw [h1.pred, h1.statuses] at this; exact this, by rw [h2.specs, h1.specs],
+    by rw [h2.gone, h1.gone], by rw [h2.cur, h1.cur], by rw [h2.nq, h1.nq],
+    by have := h2.asked; rw [h1.statuses] at this; exact this, h2.clean,
+    by rw [h2.pred, h1.pred], by rw [h2.statuses, h1.statuses], by rw [h2.sparse, h1.sparse],
+    ⟨h2.rest.1.trans h1.rest.1, h2.rest.2.1.trans h1.rest.2.1, h2.rest.2.2.1.trans h1.rest.2.2.1,
+     h2.rest.2.2.2.trans h1.rest.2.2.2⟩, h2.df, ?_⟩
+  intro hsp p hp hg
+  have := h2.saved (by rw [h1.sparse]; exact hsp) p (by rw [h1.nq]; exact hp) (by rw [h1.gone]; exact hg)
+  rw [h1.statuses] at this
+  exact this
+
+/-- The save half of `handle_rollback_and_save`, both saving modes. -/
+theorem saveAfterRollbackD (s s1 s' : P2P) (confirmed : Frame) (t0 : TLState) (reqs1 reqs' : List Request)
+    (gh gh1 : DGhost) (h : SettledD s s1 gh gh1 t0 reqs1)
+    (hsv : s1.saveAfterRollback confirmed reqs1 = .ok (s', reqs')) :
+    ∃ gh', SettledD s s' gh gh' t0 reqs' := by
+  unfold P2P.saveAfterRollback at hsv
+  by_cases hsp : s1.sparse = true
+  · rw [if_pos hsp] at hsv
+    unfold P2P.checkLastSavedState at hsv
+    by_cases hold : s1.sync.currentFrame - s1.sync.lastSavedFrame ≥ (s1.maxPrediction : Int)
+    · simp only [hold, if_true] at hsv
+      obtain ⟨r2, hsr, hsv⟩ := bind_ok hsv
+      obtain ⟨s2, reqs2⟩ := r2
+      simp only at hsv
+      obtain ⟨_, hsv⟩ := ensure_bind_ok hsv
+      have := pure_ok hsv
+      simp only [Prod.mk.injEq] at this
+      obtain ⟨hs', hr'⟩ := this
+      subst hs'; subst hr'
+      unfold P2P.saveOrRollbackToSaved at hsr
+      by_cases hc : confirmed ≥ s1.sync.currentFrame
+      · simp only [hc, if_true] at hsr
+        obtain ⟨r3, hs3, hsr⟩ := bind_ok hsr
+        obtain ⟨sy, r⟩ := r3
+        simp only at hsr
+        have := pure_ok hsr
+        simp only [Prod.mk.injEq] at this
+        obtain ⟨hs2, hr2⟩ := this
+        subst hs2; subst hr2
+        exact ⟨gh1, SettledD_save s s1 gh gh1 t0 reqs1 sy r h hs3⟩
+      · simp only [hc, if_false] at hsr
+        have hinv1 : TInvD s1.pred s1.sync s1.localConnectStatus gh1 t0 reqs1 := by
+          rw [h.pred, h.statuses]; exact h.inv
+        have hsp0 : s.sparse = true := by rw [← h.sparse]; exact hsp
+        obtain ⟨gh2, hinv, hsp2, hgo2, hs2, hcur, hnq, hask', hclean, hls⟩ :=
+          adjust_specD s1 s2 _ confirmed t0 reqs1 reqs2 gh1 s1.localConnectStatus hinv1 (Marks.refl _)
+          (fun p hp hne' => absurd (h.clean p hp) hne')
+          (fun p _ h0 h1 => by rw [h0] at h1; cases h1)
+          (fun p hp hg => by
+            rw [if_pos hsp, h.statuses]
+            exact h.saved hsp0 p (by rw [← h.nq]; exact hp) (by rw [← h.gone]; exact hg)) hsr
+        have h12 : SettledD s1 s2 gh1 gh2 t0 reqs2 := by
+          refine ⟨hinv, hsp2, hgo2, hcur, hnq, hask', hclean, by rw [hs2], by rw [hs2], by rw [hs2],
+           by rw [hs2]; exact ⟨rfl, rfl, rfl, rfl⟩, by rw [hs2]; exact h.df, ?_⟩
+          intro _ p hp hg
+          have hx := h.saved hsp0 p (by rw [← h.nq]; exact hp) (by rw [← h.gone]; exact hg)
+          rw [if_pos hsp] at hls
+          rw [h.statuses]
+          rcases hls with hy | hy
+          · rw [hy]; exact hx
+          · omega
+        exact ⟨gh2, SettledD_trans s s1 s2 gh gh1 gh2 t0 reqs1 reqs2 h h12⟩
+    · simp only [hold, if_false] at hsv
+      have := pure_ok hsv
+      simp only [Prod.mk.injEq] at this
+      obtain ⟨hs', hr'⟩ := this
+      subst hs'; subst hr'
+      exact ⟨gh1, h⟩
+  · rw [if_neg hsp] at hsv
+    obtain ⟨r3, hs3, hsv⟩ := bind_ok hsv
+    obtain ⟨sy, r⟩ := r3
+    simp only at hsv
+    have := pure_ok hsv
+    simp only [Prod.mk.injEq] at this
+    obtain ⟨hs2, hr2⟩ := this
+    subst hs2; subst hr2
+    exact ⟨gh1, SettledD_save s s1 gh gh1 t0 reqs1 sy r h hs3⟩
+
+/-- **`handle_rollback_and_save` with dead players.** -/
 theorem handleRollbackAndSaveD (s s' : P2P) (confirmed : Frame) (t0 : TLState) (reqs reqs' : List Request)
     (gh : DGhost) (st0 : List ConnStatus) (h : TInvD s.pred s.sync st0 gh t0 reqs)
-    (hm : Marks st0 s.localConnectStatus) (hns : s.sparse = false)
+    (hm : Marks st0 s.localConnectStatus)
     (hask : ∀ p, p < s.sync.queues.length → (rget s.localConnectStatus p).disconnected = false →
       Asked (rget s.sync.queues p) s.sync.currentFrame)
     (hpend : ∀ p, p < s.sync.queues.length → (rget st0 p).disconnected = false →
@@ -775,25 +900,17 @@ theorem handleRollbackAndSaveD (s s' : P2P) (confirmed : Frame) (t0 : TLState) (
       (s.disconnectFrame ≠ NULL_FRAME ∧ s.disconnectFrame ≤ (rget st0 p).lastFrame + 1))
     (hsafe : ∀ p, p < s.sync.queues.length → gh.gone p →
       (s.disconnectFrame ≠ NULL_FRAME → (rget st0 p).lastFrame < s.disconnectFrame) ∧
-      ∀ q, q < s.sync.queues.length → (rget s.sync.queues q).firstIncorrectFrame ≠ NULL_FRAME →
-        (rget st0 p).lastFrame < (rget s.sync.queues q).firstIncorrectFrame)
+      (∀ q, q < s.sync.queues.length → (rget s.sync.queues q).firstIncorrectFrame ≠ NULL_FRAME →
+        (rget st0 p).lastFrame < (rget s.sync.queues q).firstIncorrectFrame) ∧
+      (s.sparse = true → (rget st0 p).lastFrame < s.sync.lastSavedFrame))
     (hrs : s.handleRollbackAndSave confirmed reqs = .ok (s', reqs')) :
     ∃ gh', SettledD s s' gh gh' t0 reqs' ∧ TimelineRightD s'.sync s.localConnectStatus gh' := by
   unfold P2P.handleRollbackAndSave at hrs
   obtain ⟨r1, hrb, hrs⟩ := bind_ok hrs
   obtain ⟨s1, reqs1⟩ := r1
   simp only at hrs
-  obtain ⟨gh1, h1⟩ := rollbackIfNeededD s s1 confirmed t0 reqs reqs1 gh st0 h hm hns hask hpend hsafe hrb
-  unfold P2P.saveAfterRollback at hrs
-  rw [if_neg (by rw [h1.sparse, hns]; simp)] at hrs
-  obtain ⟨r3, hs3, hrs⟩ := bind_ok hrs
-  obtain ⟨sy, r⟩ := r3
-  simp only at hrs
-  have := pure_ok hrs
-  simp only [Prod.mk.injEq] at this
-  obtain ⟨hs2, hr2⟩ := this
-  subst hs2; subst hr2
-  have h' := SettledD_save s s1 gh gh1 t0 reqs1 sy r h1 hs3
-  exact ⟨gh1, h', timelineRightD_of_clean s.pred _ s.localConnectStatus gh1 h'.inv.sync h'.clean⟩
+  obtain ⟨gh1, h1⟩ := rollbackIfNeededD s s1 confirmed t0 reqs reqs1 gh st0 h hm hask hpend hsafe hrb
+  obtain ⟨gh', h'⟩ := saveAfterRollbackD s s1 s' confirmed t0 reqs1 reqs' gh gh1 h1 hrs
+  exact ⟨gh', h', timelineRightD_of_clean s.pred _ s.localConnectStatus gh' h'.inv.sync h'.clean⟩
 
 end Ggrs
